@@ -271,4 +271,57 @@ def sync (how : How) (m : Option Dir) (colHow : Option How) (t : Tree) : Res Tre
 def presyncArgs (how : How) (m : Option Dir) (args : Tree) : Res Tree :=
   reindexTree (dfIndex how args.flatTop) m args
 
+/-! ### an explicit index as join policy, keyword arguments -/
+
+/-- the `join` / `index` argument: a policy word or an explicitly supplied `pd.Index` (also given as a timeseries or a
+dict with the key 'index', `df_reindex` lines 496-501 / `_index` lines 80-94: all three denote that index) -/
+inductive Join where
+  | how (h : How)
+  | explicit (ix : List Int)
+  deriving Repr, Inhabited
+
+/-- `df_index(listed, join)`, lines 159-167, for both kinds of `join`: an explicit index IS the joint index as soon as
+one member is a pandas object (`_df_index`, line 114-115); without pandas members but with arrays the array branch
+`_np_index(lengths, index)` subscripts the index like a word and raises (`AttributeError`); nothing to align: `None` -/
+def dfIndexJ (j : Join) (ls : List Leaf) : Res Index :=
+  match j with
+  | .how h => .ok (dfIndex h ls)
+  | .explicit ix =>
+    if (tsIndexes ls).isEmpty then
+      if (arrLens ls).isEmpty then .ok .none else .error .other
+    else .ok (.times ix)
+
+/-- `df_sync(dfs, join, method, columns)` with either kind of `join` -/
+def syncJ (j : Join) (m : Option Dir) (colHow : Option How) (t : Tree) : Res Tree :=
+  match j with
+  | .how h => sync h m colHow t
+  | .explicit _ =>
+    match t with
+    | .leaf _ => .ok t
+    | .node _ _ =>
+      let listed := t.flatTop
+      match dfIndexJ j listed with
+      | .error e => .error e
+      | .ok ix =>
+        match reindexTree ix m t with
+        | .error e => .error e
+        | .ok t' =>
+          match colHow with
+          | Option.none => .ok t'
+          | some ch => t'.mapM (recolumnLeaf (joinCols ch (multiCols listed)))
+
+/-- `presync(f)(*args, **kwargs)` with `columns=False` (lines 1019-1032): the joint index is taken over
+`list(args) + list(kwargs.values())`, then `args` (a tuple) and `kwargs` (a dict) are reindexed separately onto it and
+handed to `f` -/
+def presyncCall (j : Join) (m : Option Dir) (args kwargs : List (String × Tree)) : Res (Tree × Tree) :=
+  match dfIndexJ j (flatKids (args ++ kwargs)) with
+  | .error e => .error e
+  | .ok ix =>
+    match reindexTree ix m (.node .tuple args) with
+    | .error e => .error e
+    | .ok a =>
+      match reindexTree ix m (.node .dict kwargs) with
+      | .error e => .error e
+      | .ok k => .ok (a, k)
+
 end Pyg.Align
